@@ -251,6 +251,12 @@ def build_table() -> dict[str, Any]:
                 domain = [["A1"], ["A1", "B2"]]
         else:
             domain = []
+        is_target = any(f["special"] and (not f["strings"] or set(g["dests"]) & {"modules", "packages", "files"}) for f in flags)
+        if is_target and kind == "list":
+            # what to check must exist in the scratch tree (mc/c17_eval.workdir): the only domain that
+            # cannot be derived from mypy itself
+            domain = {"files": [["t.py"], ["t.py", "u.py"]], "modules": [["t"], ["t", "u"]],
+                      "packages": [["a"], ["a", "pkg2"]]}.get(name, domain)
         doc_entries = {n: docs[n] for n in sorted(names) if n in docs}
         doc_type = next((d["type"] for d in doc_entries.values() if d["type"]), None)
         table[name] = {
@@ -267,7 +273,7 @@ def build_table() -> dict[str, Any]:
             "doc_global_only": any(d["global_only"] for d in doc_entries.values()),
             "doc_type": doc_type,
             "ini_multi": bool(doc_type and "comma-separated list" in doc_type),
-            "target": any(f["special"] and (not f["strings"] or set(g["dests"]) & {"modules", "packages", "files"}) for f in flags),
+            "target": is_target,
             "strict_flag": any(name == d for d, _ in strict_assign),
         }
     return table
@@ -367,8 +373,6 @@ def inline_texts(opt: dict[str, Any], key: str, value: Any, pol: int) -> list[tu
 
 
 if __name__ == "__main__":
-    import json
-
     t = build_table()
     for k, v in sorted(t.items()):
         print(k, v["kind"], "attr" if v["attr"] else "-", "pm" if v["per_module"] else "", "doc" if v["documented"] else "",
